@@ -426,6 +426,10 @@ pub fn run(mode: &str, seed: u64, count: usize, out: &str) -> Report {
         let strict = mode == "ro" && rng.chance(1, 2);
         let hseed = rng.next();
         rep.evaluations += 1;
+        // if the process dies in this case (abort on a huge allocation), the caller finds it here
+        let _ = std::fs::write(format!("{}.progress", out), format!("mutants {} seed={} case={} [{}] strict={}", mode, seed, i, desc, strict));
+        let mem_base = crate::memtrack::mark();
+        let input_len = bytes.len();
         // worker with a watchdog: a hang is a violation too
         let (tx, rx) = mpsc::channel();
         let bytes2 = bytes.clone();
@@ -463,6 +467,16 @@ pub fn run(mode: &str, seed: u64, count: usize, out: &str) -> Report {
         });
         match rx.recv_timeout(Duration::from_secs(20)) {
             Ok((buf, bad, accepted)) => {
+                if mode == "ro" {
+                    // heap growth while opening and reading: the trace buffer itself holds the input
+                    // and every stream twice in hex, hence the generous factor
+                    let grew = crate::memtrack::peak().saturating_sub(mem_base);
+                    let allowed = 48 * input_len.max(4096) + (4 << 20);
+                    rep.note("max_heap_growth_bytes", 0);
+                    if grew > allowed {
+                        rep.fail(format!("mutants {} seed={} case={} [{}] strict={}: reading a {} byte input made the heap grow by {} bytes", mode, seed, i, desc, strict, input_len, grew));
+                    }
+                }
                 w.write_all(&buf).unwrap();
                 if accepted {
                     rep.note("accepted", 1);
@@ -486,6 +500,7 @@ pub fn run(mode: &str, seed: u64, count: usize, out: &str) -> Report {
         }
     }
     w.flush().unwrap();
+    let _ = std::fs::remove_file(format!("{}.progress", out));
     rep
 }
 
